@@ -191,6 +191,31 @@ def compare(d, order, pv, point, m, numeric=True):
             if again.shape != got.shape or not np.array_equal(again, got):
                 return ("numeric-" + NAMES[k] + "-overwritten", "the array returned by %s(x,t) changed from %s to %s when %s was "
                         "evaluated at another point" % (NAMES[k], got.tolist()[:6], again.tolist()[:6], NAMES[k]))
+        # other parameter values, then the point each evaluator was last asked at: the derivatives at THOSE parameter values
+        from fractions import Fraction
+        p2 = dict(point)
+        for s_ in d["states"]:
+            p2[s_] = point[s_] * Fraction(5, 4) + Fraction(1, 2)
+        p2["t"] = point["t"] + Fraction(3, 4)
+        for q_ in d["params"]:
+            p2[q_] = point[q_] * Fraction(3, 2) + Fraction(1, 7)
+        try:
+            ind2 = independent(d, order, p2)
+        except Exception:       # noqa: BLE001  (a singular point of a saturating rate)
+            ind2 = None
+        if ind2 is not None:
+            x2 = np.array([float(p2[s_]) for s_ in d["states"]]); t2 = float(p2["t"])
+            m.parameters = {q_: float(p2[q_]) for q_ in d["params"]}
+            for k, f in (("J", m.jacobian), ("G", m.grad), ("DJ", m.diff_jacobian), ("GJ", m.grad_jacobian),
+                         ("F", m.transitionJacobian), ("MU", m.transitionMean), ("SG", m.transitionVar)):
+                if not ind2[k]:
+                    continue
+                got = np.array(np.asarray(f(x2, t2), float).ravel())
+                want = np.array([float(v) for v in ind2[k]])
+                if got.shape != want.shape or not np.all(np.abs(got - want) <= 1e-8 * (1 + np.abs(want))):
+                    return ("numeric-" + NAMES[k] + "-after-parameter-change", "%s evaluated at (x', t'), the parameter values changed, evaluated at (x', t') "
+                            "again = %s but the true values at the new parameter values are %s" % (NAMES[k], got.tolist()[:6], want.tolist()[:6]))
+            m.parameters = {q_: float(point[q_]) for q_ in d["params"]}
     return None
 
 
